@@ -757,4 +757,121 @@ theorem bg_refuses_continuous_br_partial (s s' : BS) (hsup : superseded s = true
             · rw [hobr, hb]; rfl
           · rw [hstop] at hns; cases hns
 
+/-! ## 8. non-vacuity and witnesses: a concrete rollout, concrete histories (kernel evaluation of the model — tests, and the
+    `_full_FALSE` witnesses of the findings; each witness history is replayed on the REAL controllers from `corpus/closedloopbg/`) -/
+
+theorem reach_append (s0 s s' : BS) (ls ls' : List Label) (h1 : Reach s0 ls s) (h2 : bgRun s ls' = some s') :
+    Reach s0 (ls ++ ls') s' := by
+  induction ls' generalizing s ls with
+  | nil =>
+    simp only [bgRun, run, Option.some.injEq] at h2
+    subst h2; simpa using h1
+  | cons l rest ih =>
+    simp only [bgRun, run] at h2
+    split at h2
+    · cases h2
+    · rename_i t ht
+      have := ih t (ls ++ [l]) (Reach.snoc s0 s t ls l h1 ht) h2
+      simpa using this
+
+/-- every run of the model is a history -/
+theorem reach_of_run (s s' : BS) (ls : List Label) (h : bgRun s ls = some s') : Reach s ls s' := by
+  simpa using reach_append s s s' [] ls (Reach.nil s) h
+
+/-- the user's CloneSet: 4 replicas, minReadySeconds 5, maxSurge 25 %, maxUnavailable 1, one HPA -/
+def exU : User :=
+  { replicas := 4, minReadySeconds := 5, maxSurge := some (pct 25), maxUnavailable := some (int 1), paused := false,
+    stype := .expected, hpaV2 := [{ av := .same, kindSame := true, name := some 0 }], hpaV1 := [] }
+
+/-- a blue-green Rollout: 50 % of the pods with 50 % of the traffic (manual confirmation), then all pods without a traffic step -/
+def exRo : RolloutSM.Rollout :=
+  { style := .blueGreen, steps := [⟨.pct 50, some 50, .manual⟩, ⟨.pct 100, none, .short⟩], paused := false, disabled := false,
+    deleting := false, hasFinalizer := true, hasTraffic := true, disableGen := false, rollbackInBatch := false, grace := 3,
+    phase := .healthy, reason := .none, condAge := .none, succeeded := none, term := .none, sub := none, realPartition := true }
+
+def exS0 : BS :=
+  { gone := false, ro := exRo,
+    world := { wl := some (userWl exU), hpaV2 := exU.hpaV2, hpaV1 := [], generation := 1, observedGeneration := 1,
+               updateRevision := "v1", currentRevision := "v1", inProgressAnno := false },
+    br := none, net := { stableExists := true, stableSel := none, canarySvc := none, stableIngress := true, canaryIng := none },
+    mem := Mem.empty }
+
+def exRound : List Label := [.ro, .br, .env, .approve, .tick]
+def rounds (n : Nat) : List Label := (List.replicate n exRound).flatten
+
+/-- the hypotheses of the history theorems are satisfiable -/
+example : Init exU exS0 :=
+  { user := by decide, wl := rfl, rev := rfl, hpa2 := rfl, hpa1 := rfl, anno := rfl, br := rfl, present := rfl, style := rfl,
+    phase := rfl, net := by decide }
+
+/-- test (`bg_world_inv`, `bg_old_pods_kept`, `bg_no_promotion_while_held` are about states like this one): 17 fair rounds after the
+    release of `v2` the rollout waits at step 1 — the hold is installed (minReadySeconds = MaxReadySeconds, the HPA disabled), 2 surge pods of
+    `v2` run next to the 4 pods of `v1`, half of the traffic goes to the canary Service -/
+example : (bgRun exS0 (.release "v2" :: rounds 17)).map (fun s =>
+      s.ro.reason == .inRolling && (match s.ro.sub with | some x => x.curIdx == 1 && x.state == .ready | none => false) &&
+      (match s.world.wl with | some w => hold w && w.minReadySeconds == maxReady && w.status.replicas == 6 && w.status.updated == 2 | none => false) &&
+      s.world.hpaV2.map (·.name) == [some 1] && s.net.canaryIng == some 50 && worldInv exU s.world && stableKept exU s.world && oldPodsKept s) =
+    some true := by decide +kernel
+
+/-- test (`bg_settings_restored_partial` applies: the annotation is gone): the whole rollout finishes within 50 fair rounds — Healthy, no
+    BatchRelease, every setting the user's again, the HPA re-enabled, the network objects gone, all 4 pods on `v2` -/
+example : (bgRun exS0 (.release "v2" :: rounds 50)).map (fun s =>
+      s.ro.phase == .healthy && s.br.isNone && terminal s && settingsRestored exU s &&
+      (match s.world.wl with | some w => w.status.replicas == 4 && w.status.updated == 4 | none => false) && s.world.currentRevision == "v2") =
+    some true := by decide +kernel
+
+/-- test: the same with a crash of the controllers after every round (`bg_crash`) -/
+example : (bgRun exS0 (.release "v2" :: (List.replicate 50 (exRound ++ [.crash])).flatten)).map (fun s =>
+      s.ro.phase == .healthy && terminal s && settingsRestored exU s) = some true := by decide +kernel
+
+/-- test (`bg_refuses_continuous`): `v3` pushed while step 1 waits — superseded, the BatchRelease supervises — and 10 fair rounds later
+    nothing that is exposed has changed; then the user rolls back to `v1` and the rollout is cancelled (Succeeded = false), everything restored
+    but the partition -/
+example : (bgRun exS0 (.release "v2" :: rounds 17 ++ [.release "v3", .env])).map exposureOf =
+      (bgRun exS0 (.release "v2" :: rounds 17 ++ [.release "v3", .env] ++ rounds 10)).map exposureOf ∧
+    (bgRun exS0 (.release "v2" :: rounds 17 ++ [.release "v3", .env])).map (fun s => superseded s && brSupervises s) = some true ∧
+    (bgRun exS0 (.release "v2" :: rounds 17 ++ [.release "v3", .env] ++ rounds 10)).map (fun s => superseded s && brSupervises s) = some true := by
+  decide +kernel
+
+/-- **finding `csPartitionKept` in the closed loop — `bg_settings_restored_full_FALSE_partition`**: "every terminal state has the user's
+    configuration back" is FALSE on the unchanged code.  Step 1 waits with 2 surge pods; the user rolls back to `v1` (the admission webhook
+    holds the change back at partition 100 %); the rollback runs to its end — Healthy, Succeeded = false, BatchRelease gone, settings and HPA
+    restored — and the CloneSet keeps `partition: 100%`: it will not follow its template until somebody clears it. -/
+theorem bg_settings_restored_full_FALSE_partition :
+    (bgRun exS0 (.release "v2" :: rounds 17 ++ [.release "v1"] ++ rounds 16)).map (fun s =>
+      terminal s && s.ro.succeeded == some false && !settingsRestored exU s && gCsPartitionKept s &&
+      (match s.world.wl with
+       | some w => w.saved == .none && w.ctl == .none && w.minReadySeconds == 5 && w.partition == some (pct 100)
+       | none => false)) = some true := by decide +kernel
+
+/-- **finding `bgCursorCarried` — `bg_settings_restored_full_FALSE_cursor`**: the Rollout is deleted while its success clean-up waits at
+    `ResumeWorkload` (the longest task: all pods have to be replaced).  The deletion sequence continues from that cursor:
+    `ResumeWorkload → ReleaseWorkloadControl → END`; what it has *before* `ResumeWorkload` in its own order — `RouteTrafficToStable`,
+    `RemoveCanaryService` — is never run.  The Rollout object is gone and the canary Ingress (weight 100) is still there. -/
+theorem bg_settings_restored_full_FALSE_cursor :
+    (bgRun exS0 (.release "v2" :: rounds 37 ++ [.delete] ++ rounds 8)).map (fun s =>
+      s.gone && terminal s && !settingsRestored exU s && s.br.isNone && s.net.canaryIng == some 100) = some true := by decide +kernel
+
+/-- **finding `bgRollbackNoSurge` — `bg_rollback_completes_full_FALSE`**: the user rolls back before the first pod of `v2` exists (the
+    BatchRelease has just taken the CloneSet over).  No pod of another revision exists, so the finder reports no rollback
+    (`updatedReplicas = replicas`); the Rollout controller takes `v1` for a *newer* revision, which blue-green refuses ("please rollback first").
+    30 fair rounds later nothing has moved: InRolling, step 1 StepUpgrade, the hold still on the CloneSet, the HPA still disabled. -/
+theorem bg_rollback_completes_full_FALSE :
+    (bgRun exS0 (.release "v2" :: rounds 6 ++ [.release "v1"] ++ rounds 30)).map (fun s =>
+      rollbackUnseen s && s.ro.phase == .progressing && s.ro.reason == .inRolling &&
+      (match s.ro.sub with | some x => x.curIdx == 1 && x.state == .upgrade | none => false) && s.br.isSome &&
+      (match s.world.wl with | some w => w.saved != .none && w.minReadySeconds == maxReady | none => false) &&
+      s.world.hpaV2.map (·.name) == [some 1]) = some true := by decide +kernel
+
+/-- **known finding `supersedeBeforeInit` in the blue-green loop — `bg_refuses_continuous_full_FALSE`**: `v3` is pushed when the
+    BatchRelease for `v2` has just been created (nothing recorded: `brSupervises` fails).  `Initialize` records `v3`, `UpgradeBatch` raises
+    the surge, the CloneSet controller starts 2 pods of `v3` — while the Rollout says step 1 of `v2` and refuses `v3`. -/
+theorem bg_refuses_continuous_full_FALSE :
+    (bgRun exS0 (.release "v2" :: rounds 5 ++ [.release "v3", .br, .env])).map (fun s => superseded s && !brSupervises s && adopted s) =
+      some true ∧
+    (bgRun exS0 (.release "v2" :: rounds 5 ++ [.release "v3", .br, .env, .br, .env, .br, .env, .br, .env])).map (fun s =>
+      superseded s && s.world.updateRevision == "v3" &&
+      (match s.world.wl with | some w => w.partition == none && w.status.updated == 2 | none => false) &&
+      (match s.ro.sub with | some x => x.canaryRev == "v2" && x.curIdx == 1 | none => false)) = some true := by decide +kernel
+
 end RV.Props.ClosedLoopBG
